@@ -1,6 +1,7 @@
 package main
 
 import (
+	"net/url"
 	"fmt"
 	"math/rand/v2"
 	"net"
@@ -189,6 +190,12 @@ func c19Gen(c *Ctx) {
 			hn = "X-" + randToken(r, 1+r.IntN(10))
 		}
 		req := &http.Request{Host: host, Header: http.Header{}}
+		switch r.IntN(3) { // what a balancer in front has done to the URL is irrelevant to request.host
+		case 0:
+			req.URL = &url.URL{Scheme: "http", Host: "backend-7.internal:8080", Path: "/"}
+		case 1:
+			req.URL = &url.URL{Path: "/p"}
+		}
 		nvals := r.IntN(3)
 		var vals []string
 		for k := 0; k < nvals; k++ {
